@@ -712,8 +712,9 @@ EntryCase(k) ==
 SelfRecCase(sz) ==
   [BaseCase EXCEPT !.id = <<"selfrec", sz, 0, 0, 0, 0, 0>>, !.fam = "calls", !.vm = "nodata", !.calc = TRUE,
      !.fsz = [dflt |-> 256, tab |-> << <<0, sz>> >>],
-     !.prog = Flat(<< Mov64R(8, 7), Mov64R(7, 10), Add64I(6, 1), JeqI(6, 2, 2), CallxI(-5), ExitI,
-                      Mov64R(0, 8), Sub64R(0, 10), ExitI >>)]
+     \* (r1 is the only register defined at entry: 0 on the first level, 1 on the second; r2 carries level 1's r10)
+     !.prog = Flat(<< I(85, 1, 0, 4, 0), Mov64I(1, 1), Mov64R(2, 10), CallxI(-4), ExitI,
+                      Mov64R(0, 2), Sub64R(0, 10), ExitI >>)]
 \* the call tree with main calling the later-placed function first
 TreeProg2 ==
   Flat(<< Mov64R(1, 10), CallxI(9), Mov64R(6, 0), Mov64R(1, 10), CallxI(3), Lsh64I(0, 12), Add64R(0, 6), ExitI,    \* main 0..7: f2 (11) then f1 (8)
@@ -872,6 +873,7 @@ FlowLoopDiv(o) ==
                       I(o, 6, 2, 0, 0), Add64I(2, 1), Add64I(5, -1), I(85, 5, 0, -4, 0), Mov64R(0, 6), ExitI >>)]
 
 FlowCases(u) ==
+  LdIndWrapCases \cup      \* (also an address computation two engines must agree on)
   { FlowAlias2(k, w) : k \in {3, 4}, w \in Widths } \cup
   { FlowUawMem(w) : w \in Widths } \cup
   { FlowJoinJmp(k) : k \in 1..3 } \cup
